@@ -204,24 +204,41 @@ pub fn shapes(groups: &mut Vec<Group>, tier: &str) {
     let nmax = if tier == "quick" { 3 } else { 5 };
     let mut all: Vec<(Def, serde_json::Value)> = Vec::new();
     let mut k = 0usize;
+    // kinds: M mandatory leaf, O OPTIONAL leaf, D DEFAULT leaf, N mandatory nested plain SEQUENCE (no presence bits,
+    // 4 bits), Z mandatory NULL (0 bits). The 3-kind combinations are complete up to nmax components, the ones
+    // involving N/Z up to nmax5.
+    let nmax5 = if tier == "quick" { 3 } else { 4 };
     for n in 1..=nmax {
-        let combos = 3usize.pow(n as u32);
+        let combos = 5usize.pow(n as u32);
         for combo in 0..combos {
+            let digits: Vec<usize> = (0..n).scan(combo, |c, _| { let d = *c % 5; *c /= 5; Some(d) }).collect();
+            if digits.iter().any(|d| *d >= 3) && n > nmax5 {
+                continue;
+            }
             // ext: None, or root = first r components (1 <= r <= n)
             for ext in 0..=n {
                 for is_set in [false, true] {
                     let mut comps = Vec::new();
-                    let mut c = combo;
                     let mut kinds = String::new();
                     for i in 0..n {
-                        let kind = c % 3;
-                        c /= 3;
+                        let kind = digits[i];
                         let (ty, presence) = match kind {
                             0 => (if i % 2 == 0 { Type::int(0, 7) } else { Type::Boolean }, Presence::Mandatory),
                             1 => (if i % 2 == 0 { Type::int(0, 7) } else { Type::Boolean }, Presence::Optional),
-                            _ => (Type::int(0, 255), Presence::Default(DefaultVal::Lit(Lit::Int(5)))),
+                            2 => (Type::int(0, 255), Presence::Default(DefaultVal::Lit(Lit::Int(5)))),
+                            3 => (
+                                Type::Sequence(Comps {
+                                    root: vec![
+                                        Comp { name: "x".into(), tag: None, ty: Type::int(0, 7), presence: Presence::Mandatory },
+                                        Comp { name: "y".into(), tag: None, ty: Type::Boolean, presence: Presence::Mandatory },
+                                    ],
+                                    ext: None,
+                                }),
+                                Presence::Mandatory,
+                            ),
+                            _ => (Type::Null, Presence::Mandatory),
                         };
-                        kinds.push(['M', 'O', 'D'][kind]);
+                        kinds.push(['M', 'O', 'D', 'N', 'Z'][kind]);
                         comps.push(Comp { name: format!("c{}", i), tag: None, ty, presence });
                     }
                     let c = if ext == 0 { Comps { root: comps, ext: None } } else { Comps { root: comps[..ext].to_vec(), ext: Some(comps[ext..].to_vec()) } };
